@@ -25,7 +25,8 @@ def _targets(t: ast.AST, path: Tuple[int, ...] = ()) -> Iterator[Tuple[ast.AST, 
         yield t, path
 
 
-def definitions(func: ast.AST) -> Dict[str, List[Def]]:
+def definitions(func: ast.AST, comp: bool = False) -> Dict[str, List[Def]]:
+    """comp=True also lists comprehension targets (they live in their own scope)."""
     defs: Dict[str, List[Def]] = {}
 
     def add(name: str, d: Def):
@@ -56,9 +57,10 @@ def definitions(func: ast.AST) -> Dict[str, List[Def]]:
                 if isinstance(tt, ast.Name):
                     add(tt.id, (node, node.iter, path, "for"))
         elif isinstance(node, ast.comprehension):
-            for tt, path in _targets(node.target):
-                if isinstance(tt, ast.Name):
-                    add(tt.id, (node, node.iter, path, "for"))
+            if comp:
+                for tt, path in _targets(node.target):
+                    if isinstance(tt, ast.Name):
+                        add(tt.id, (node, node.iter, path, "comp"))
         elif isinstance(node, (ast.With, ast.AsyncWith)):
             for it in node.items:
                 if it.optional_vars is not None:
